@@ -316,6 +316,80 @@ fn cross_cache_scenario(out: &Mutex<Vec<(String, String)>>, millis: u64) -> u64 
     1
 }
 
+/// Serializing a handle (feature `serde`) is a read like any other: the value is walked under the
+/// entry's lock.  A self-checking value is serialized by reader threads while it is reloaded all the
+/// time; its `Serialize` looks at the first word, dawdles, then at all the others.
+static SER_TORN: AtomicU64 = AtomicU64::new(0);
+static SER_DONE: AtomicU64 = AtomicU64::new(0);
+struct TSer([u64; 1024]);
+impl serde::Serialize for TSer {
+    fn serialize<S: serde::Serializer>(&self, s: S) -> Result<S::Ok, S::Error> {
+        let first = self.0[0];
+        for _ in 0..400 {
+            std::hint::spin_loop();
+        }
+        std::thread::yield_now();
+        if self.0.iter().any(|w| *w != first) {
+            SER_TORN.fetch_add(1, Ordering::Relaxed);
+        }
+        SER_DONE.fetch_add(1, Ordering::Relaxed);
+        s.serialize_u64(first)
+    }
+}
+struct TSerLoader;
+impl assets_manager::loader::Loader<TSer> for TSerLoader {
+    fn load(content: std::borrow::Cow<[u8]>, _: &str) -> Result<TSer, assets_manager::BoxedError> {
+        Ok(TSer([parse_int(&content)? as u64; 1024]))
+    }
+}
+impl assets_manager::Asset for TSer {
+    const EXTENSION: &'static str = "ser";
+    type Loader = TSerLoader;
+}
+struct Show<'a>(&'a assets_manager::Handle<TSer>);
+impl std::fmt::Display for Show<'_> {
+    fn fmt(&self, f: &mut std::fmt::Formatter<'_>) -> std::fmt::Result {
+        serde::Serialize::serialize(self.0, f)
+    }
+}
+
+fn serialize_scenario(out: &Mutex<Vec<(String, String)>>, millis: u64) -> u64 {
+    let mem = Mem::new(true);
+    mem.write("z0", "ser", b"0");
+    let cache = AssetCache::with_source(mem.clone());
+    let Ok(h) = cache.load::<TSer>("z0") else { return 0 };
+    let stop = AtomicBool::new(false);
+    std::thread::scope(|s| {
+        for _ in 0..3 {
+            s.spawn(|| {
+                while !stop.load(Ordering::Relaxed) {
+                    let _ = format!("{}", Show(h));
+                }
+            });
+        }
+        let t0 = Instant::now();
+        let mut n = 0u64;
+        while t0.elapsed() < Duration::from_millis(millis) {
+            n += 1;
+            mem.write("z0", "ser", n.to_string().as_bytes());
+            let target = EVENTS_HANDLED.load(Ordering::SeqCst) + 1;
+            if mem.send(vec![OwnedDirEntry::File("z0".into(), "ser".into())]) {
+                let _ = wait_events(target);
+            }
+            cache.hot_reload();
+        }
+        stop.store(true, Ordering::Relaxed);
+    });
+    let (torn, done) = (SER_TORN.load(Ordering::Relaxed), SER_DONE.load(Ordering::Relaxed));
+    if torn > 0 {
+        out.lock().unwrap().push((
+            "torn-read".to_string(),
+            format!("{torn} of {done} serializations of a handle (serde) saw a mixture of two values while the asset was being reloaded"),
+        ));
+    }
+    1
+}
+
 /// A reload replaces the whole value, whatever its layout: values of alignment 1 to 64 (sizes that
 /// are several words, and an odd number of bytes for the byte-aligned one) are loaded, edited and
 /// reloaded; afterwards every part of the value shows the new content and the value that was
@@ -425,6 +499,7 @@ pub fn run(a: &Args) {
     }
     n += layout_scenario(&violations);
     n += cross_cache_scenario(&violations, if a.thorough() { 1500 } else { 400 });
+    n += serialize_scenario(&violations, if a.thorough() { 1500 } else { 400 });
     let v = violations.into_inner().unwrap();
     if !v.is_empty() {
         let mut f = String::new();
